@@ -859,6 +859,12 @@ func (e *Exec) makeSlice(st *State, fr *Frame, in *ssa.MakeSlice) {
 	if cp.IsConst() && cp.C.IsInt64() {
 		n = int(cp.C.Int64())
 	}
+	if n < 0 && !isScalarType(elem) && ln.IsConst() && ln.C.Sign() == 0 {
+		// make([]T, 0, n) of a non-scalar T with a symbolic capacity: an empty list (the capacity is not observable
+		// through the values the verifier tracks; appends build fresh lists)
+		n = 0
+		cp = e.idx(0)
+	}
 	av := e.zeroArray(st, elem, cp, n)
 	id := e.newObj(st, av, &ObjMeta{T: types.NewArray(elem, 0), Fresh: true})
 	e.accountAlloc(st, fr, in, elem, cp)
